@@ -35,12 +35,16 @@ class Result:
 # spelled with multi-character names one of which is a textual prefix of another, and object ancestors that all carry the
 # same label (as when support values are read as names) - neither may influence a result
 FAMILY_ALIAS = {"a": "g1", "b": "g10", "c": "g2", "d": "g20", "z": "g100"}
-FAMILY_ALIAS_INV = {v: k for k, v in FAMILY_ALIAS.items()}
+# second spelling: names that differ only by leading zeros (equal under a "natural sort" key)
+FAMILY_ALIAS_ZEROS = {"a": "cas1", "b": "cas01", "c": "cas001", "d": "cas0001", "z": "cas00001"}
 
 
 def presentation_of(leafmap):
     order = A.dict_order_of(leafmap)
-    return {"alias": order == "mid", "same_labels": order == "rev"}
+    alias = None
+    if order == "mid":
+        alias = FAMILY_ALIAS_ZEROS if sum(leafmap.values()) % 2 else FAMILY_ALIAS
+    return {"alias": alias, "same_labels": order == "rev"}
 
 
 def run_labelled(algo, O, S, leafmap, leafsyn, costs, policy, rootsyn=None, keep_raw=False, session=None):
@@ -53,8 +57,9 @@ def run_labelled(algo, O, S, leafmap, leafsyn, costs, policy, rootsyn=None, keep
         pres = presentation_of(leafmap)
         ls, rs, onames = leafsyn, rootsyn, None
         if pres["alias"]:
-            ls = {v: tuple(FAMILY_ALIAS[f] for f in x) for v, x in leafsyn.items()}
-            rs = None if rootsyn is None else tuple(FAMILY_ALIAS[f] for f in rootsyn)
+            al = pres["alias"]
+            ls = {v: tuple(al[f] for f in x) for v, x in leafsyn.items()}
+            rs = None if rootsyn is None else tuple(al[f] for f in rootsyn)
         if pres["same_labels"] and O.is_binary() and S.is_binary():
             onames = {v: ("90" if O.children[v] else f"o{v}") for v in range(O.n)}
         inp, onode, snode = A.build_input(O, S, leafmap, costs, ls, unordered=not is_ord, rootsyn=rs, onames=onames)
@@ -72,7 +77,8 @@ def run_labelled(algo, O, S, leafmap, leafsyn, costs, policy, rootsyn=None, keep
             m = A.mapping_of(out, onode, snode)
             lab = A.labelling_of(out, onode, is_ord)
             if pres["alias"]:
-                lab = {k: (tuple(FAMILY_ALIAS_INV[f] for f in x) if is_ord else frozenset(FAMILY_ALIAS_INV[f] for f in x))
+                inv = {v_: k_ for k_, v_ in pres["alias"].items()}
+                lab = {k: (tuple(inv[f] for f in x) if is_ord else frozenset(inv[f] for f in x))
                        for k, x in lab.items()}
             c = A.impl_cost(out.cost())
             flag = out.ordered
